@@ -3,7 +3,7 @@ import json, os
 import vlib
 
 MC = """SPECIFICATION Spec
-CONSTANTS Docs = {docs} MaxVer = 3 MaxVal = {maxval} MaxSteps = {steps} IndexOpsAnytime = {anytime}
+CONSTANTS Docs = {docs} MaxVer = {maxver} MaxVal = {maxval} MaxSteps = {steps} IndexOpsAnytime = {anytime}
 VIEW view
 {body}
 CHECK_DEADLOCK FALSE
@@ -17,11 +17,11 @@ def check(run, replay, prop):
         files = [replay]
     else:
         run.tlc("NodeOps.tla", "mc.cfg", workers=8, timeout=1500,
-                cfg_text=MC.format(docs="{1,2}", maxval=1, steps=8 if thorough else 6, anytime="TRUE", body="INVARIANTS AddedFieldsStartNull\nPROPERTIES SchemaOpsKeepData RestartInvisible"), label="MC_NodeOps")
+                cfg_text=MC.format(docs="{1,2}", maxver=3, maxval=1, steps=8 if thorough else 6, anytime="TRUE", body="INVARIANTS AddedFieldsStartNull\nPROPERTIES SchemaOpsKeepData RestartInvisible"), label="MC_NodeOps")
         for tag, steps, n, anytime in (("a", 12, 300 if thorough else 40, "FALSE"), ("b", 20, 150 if thorough else 20, "FALSE"), ("idx", 12, 40 if thorough else 8, "TRUE")):
             out = os.path.join(run.tmp, "node-%s.ndjson" % tag)
             run.tlc("NodeOps_gen.tla", "gen_%s.cfg" % tag, mode="simulate", workers=1, sim="num=%d" % n, extra=["-depth", str(steps)], timeout=900,
-                    env={"VERIF_OUT": out}, cfg_text=MC.format(docs="{1,2,3}", maxval=2, steps=steps, anytime=anytime, body="ACTION_CONSTRAINT ExportLeaves"), label="GEN_NodeOps_" + tag)
+                    env={"VERIF_OUT": out}, cfg_text=MC.format(docs="{1,2,3}", maxver=4, maxval=2, steps=steps, anytime=anytime, body="ACTION_CONSTRAINT ExportLeaves"), label="GEN_NodeOps_" + tag)
             if not os.path.exists(out):
                 raise vlib.Infra("no NodeOps behaviours exported")
             files.append(out)
